@@ -68,6 +68,7 @@ type c08History struct {
 	Dev   []string  `json:"dev"`
 	W     int       `json:"w"`
 	R     int       `json:"r"`
+	Cap   int       `json:"cap"`
 	Src   string    `json:"src"`
 	Steps []c08Step `json:"steps"`
 }
@@ -1509,4 +1510,215 @@ func TestVerifC08SweepStress(t *testing.T) {
 		synctest.Wait()
 	})
 	res.Sample(map[string]any{"kind": "sweepstress", "n": []int{2, 8, 64}, "rounds_each": rounds, "foreign_randoms": foreign}, 2)
+}
+
+// ------------------------------------------------------------------------------------ flood histories
+//
+// A "Foreign" step of the model is one foreign random taking room in the cache; on the code it is a burst of
+// ceil(N / cap) distinct parsable first packets of somebody else (cap = capacity constant of the model that
+// produced the history, N = flood size of the run), so that the model's "cache full" is "N randoms since the
+// packet was accepted" on the code.  Most of the burst goes through the real registerRandom directly, the first
+// few thousand through AuthFirstPacket as junk ClientHellos / GETs (random bytes where the sealed block would be).
+// The clock is a hand-driven WorldState.Now (no cleaner in these histories): everything happens inside the window.
+
+func c08RunFlood(t *testing.T, h *c08History, c c08Conc, transport string, flood int, viaAuth int) (out c08Outcome, inserted int) {
+	tol := timestampTolerance
+	var clk atomic.Int64
+	clk.Store(time.Now().Truncate(time.Second).UnixNano() + int64(c.Phase))
+	now := func() time.Time { return time.Unix(0, clk.Load()) }
+	sta := c08NewState(now)
+	// room for the whole flood from the start: growing a Go map step by step to a million entries costs seconds and
+	// says nothing about Cloak (the hint is not behaviour; a tree that replaces the map starts again from a small one)
+	sta.UsedRandom = make(map[[32]byte]int64, flood+flood/8)
+	capacity := h.Cap
+	if capacity < 1 {
+		capacity = 2
+	}
+	burst := (flood + capacity - 1) / capacity
+	template, err := c08MakePacket(transport, now)
+	if err != nil {
+		t.Fatal(err)
+	}
+	var serial uint64
+	nonce := kit.NewRng(kit.Seed()*7919 + int64(flood)).Uint64()
+	freshKey := func() (k [32]byte) {
+		serial++
+		x := kit.NewRng(int64(serial ^ nonce))
+		copy(k[:], x.Bytes(32))
+		k[0], k[1], k[2], k[3] = byte(serial), byte(serial>>8), byte(serial>>16), byte(serial>>24) // distinct for sure
+		k[31] &= 0x7f
+		return k
+	}
+	packets := map[int]*c08Packet{}
+	accepted := map[int]int{}
+	foreignSince := map[int]int{}
+	entries := func() int {
+		sta.usedRandomM.RLock()
+		defer sta.usedRandomM.RUnlock()
+		return len(sta.UsedRandom)
+	}
+	deviant := c08Deviant(h)
+	for i, st := range h.Steps {
+		clk.Add(int64(c08StepEps))
+		at := time.Duration(0)
+		switch st.A {
+		case "Tick":
+			clk.Add(int64(c.Tick))
+		case "Issue":
+			skew := time.Duration(st.K) * c.Tick
+			p, err := c08MakePacket(transport, func() time.Time { return now().Add(skew) })
+			if err != nil {
+				t.Fatal(err)
+			}
+			packets[st.B] = p
+			out.Table = append(out.Table, fmt.Sprintf("step %d Issue(block %d, skew %d ticks): client stamp %d", i, st.B, st.K, p.ts))
+		case "Foreign":
+			before := entries()
+			for j := 0; j < burst; j++ {
+				k := freshKey()
+				if j < viaAuth { // the real path: a parsable first packet whose sealed block is garbage
+					junk := &c08Packet{transport: transport, raw: template.raw, hidden: template.hidden, random: template.random}
+					h2 := append([]byte{}, template.hidden...)
+					copy(h2[:32], k[:])
+					var raw []byte
+					if transport == "WebSocket" {
+						raw = bytes.Replace(junk.raw, []byte(base64.StdEncoding.EncodeToString(template.hidden)), []byte(base64.StdEncoding.EncodeToString(h2)), 1)
+					} else {
+						raw = append([]byte{}, junk.raw...)
+						off := bytes.Index(raw, template.random[:])
+						copy(raw[off:off+32], k[:])
+					}
+					if _, _, err := AuthFirstPacket(raw, c08Transport(transport), sta); err == nil {
+						t.Fatalf("a junk first packet authenticated")
+					}
+				} else {
+					sta.registerRandom(k)
+				}
+			}
+			inserted += burst
+			for b := range foreignSince {
+				foreignSince[b] += burst
+			}
+			n := entries()
+			out.Table = append(out.Table, fmt.Sprintf("step %d Foreign: %d foreign first packets (%d through AuthFirstPacket), cache %d -> %d entries", i, burst, min(viaAuth, burst), before, n))
+		case "Present":
+			p := packets[st.B]
+			_, _, err := AuthFirstPacket(c08Variant(p, st.V), c08Transport(transport), sta)
+			nw := now()
+			inWin := time.Unix(p.ts, 0).After(nw.Add(-tol)) && time.Unix(p.ts, 0).Before(nw.Add(tol))
+			out.Table = append(out.Table, fmt.Sprintf("step %d Present(block %d, %s): expected ok=%v (%s) observed ok=%v (%s) age=%v, %d foreign packets since it was accepted, cache %d entries",
+				i, st.B, st.V, st.Ok, st.Why, err == nil, c08Why(err), nw.Sub(time.Unix(p.ts, 0)), foreignSince[st.B], entries()))
+			if accepted[st.B] > 0 && inWin {
+				out.Replays++
+			}
+			if !deviant && (err == nil) != st.Ok {
+				out.Mismatch++
+			}
+			if err == nil {
+				accepted[st.B]++
+				out.Accepts++
+				if accepted[st.B] == 1 {
+					foreignSince[st.B] = 0
+				} else if inWin && out.Key == "" {
+					out.Key = "replay-after-flood"
+					out.What = fmt.Sprintf("an accepted %s first packet authenticated again %v after the client stamp (window %v) after %d distinct foreign first packets had been presented in between: the replay cache forgot a random that was still replayable", transport, nw.Sub(time.Unix(p.ts, 0)), tol, foreignSince[st.B])
+					if foreignSince[st.B] == 0 {
+						out.Key = "replay-accepted"
+					}
+				}
+			}
+		}
+		_ = at
+	}
+	return out, inserted
+}
+
+func TestVerifC08Flood(t *testing.T) {
+	c08Quiet()
+	res := c08Res
+	defer func() { res.Save(true) }()
+	concs := c08Concretisations(res)
+	if len(concs) == 0 {
+		t.Fatal("no concretisation")
+	}
+	var sizes []int
+	for _, f := range strings.Split(kit.Env("VERIF_C08_FLOOD_SIZES", "1114112"), ",") {
+		if n, err := strconv.Atoi(strings.TrimSpace(f)); err == nil && n > 0 {
+			sizes = append(sizes, n)
+		}
+	}
+	viaAuth := kit.EnvInt("VERIF_C08_FLOOD_VIA_AUTH", 2048)
+	if rp := kit.Env("VERIF_REPLAY", ""); rp != "" {
+		var rf struct {
+			Replay struct {
+				History   c08History `json:"history"`
+				Conc      c08Conc    `json:"conc"`
+				Transport string     `json:"transport"`
+				Flood     int        `json:"flood"`
+			} `json:"replay"`
+		}
+		raw, err := os.ReadFile(rp)
+		if err != nil {
+			t.Fatal(err)
+		}
+		if err := json.Unmarshal(raw, &rf); err != nil {
+			t.Fatal(err)
+		}
+		o, _ := c08RunFlood(t, &rf.Replay.History, rf.Replay.Conc, rf.Replay.Transport, rf.Replay.Flood, viaAuth)
+		for _, l := range o.Table {
+			fmt.Println(l)
+		}
+		fmt.Printf("REPLAY-RESULT key=%q what=%q\n", o.Key, o.What)
+		return
+	}
+	idx := 0
+	err := kit.ReadLines(kit.Env("VERIF_FLOOD_IN", ""), func(line []byte) error {
+		var h c08History
+		if err := json.Unmarshal(line, &h); err != nil {
+			return err
+		}
+		idx++
+		for si, size := range sizes {
+			if res.NumViolations() > 40 {
+				return nil
+			}
+			c := concs[(idx+si)%len(concs)]
+			tr := []string{"TLS", "WebSocket"}[(idx+si)%2]
+			t0 := time.Now()
+			o, inserted := c08RunFlood(t, &h, c, tr, size, viaAuth)
+			var ms runtime.MemStats
+			runtime.ReadMemStats(&ms)
+			res.Stat("flood_runs", 1)
+			res.Stat("flood_foreign_packets", int64(inserted))
+			res.Stat("flood_wall_ms", time.Since(t0).Milliseconds())
+			if mb := int64(ms.HeapAlloc >> 20); mb > res.Stats["flood_heap_mb_max"] {
+				res.Stat("flood_heap_mb_max", mb-res.Stats["flood_heap_mb_max"])
+			}
+			res.Stat("mismatch", int64(o.Mismatch))
+			res.Stat("replay_attempts_in_window", int64(o.Replays))
+			res.Stat("src:"+h.Src, 1)
+			res.Count(fmt.Sprintf("flood/%d/%s", size, c08Sig(&h)), o.Replays > 0)
+			if c08Deviant(&h) {
+				if o.Key != "" {
+					res.Stat("cex_reproduced:"+h.Src, 1)
+				} else {
+					res.Stat("cex_not_reproduced:"+h.Src, 1)
+				}
+			}
+			if o.Key != "" {
+				res.Violate(o.Key, o.What, map[string]any{"kind": "flood", "history": h, "conc": c, "transport": tr, "flood": size, "table": o.Table})
+			} else if o.Mismatch > 0 {
+				res.Note("model/code disagreement (no verdict) on flood history %s: %s", c08Sig(&h), strings.Join(o.Table, " | "))
+			}
+			if idx == 1 && si == 0 {
+				res.Sample(map[string]any{"flood": size, "history": json.RawMessage(append([]byte{}, line...))}, 4)
+			}
+			runtime.GC()
+		}
+		return nil
+	})
+	if err != nil {
+		t.Fatal(err)
+	}
+	res.Stat("flood_histories", int64(idx))
 }
